@@ -42,6 +42,18 @@ func (p *Prog) updateHook() *updateHook {
 		if lc.startCall != nil && !Dominates(ci, lc.startCall) {
 			h.RegOK = false
 		}
+		// … on the hand object created for this hand: te.game ← NewGame(backend, options) just before
+		created := false
+		for _, ss := range p.Stores([]*ssa.Function{lc.startFn}) {
+			if ss.Owner == "tableEngine" && ss.Field == "game" && ss.Val.Strip().Kind == "call" && Dominates(ss.Instr, ci) {
+				if sc := ss.Val.Strip().Call.Common().StaticCallee(); sc != nil && p.IsRepoFunc(sc) && sc.Signature.Results().Len() == 1 {
+					created = true
+				}
+			}
+		}
+		if !created {
+			h.RegOK = false
+		}
 	}
 	return h
 }
